@@ -1,7 +1,7 @@
 /-
-  The hand-written mirrors of the Go tables in Model/Arrays.lean (arrayElemTypes, fixedLengths, typeAlign) against
-  the graphs obtained by executing the code (Generated/Arrays.lean), and against the Spec's pg_type table.
-  If the code's tables drift from the model, this module stops building.
+  The tables of Model/Arrays.lean — `arrayElemTypes` (read from the Go source on every run), and the transcriptions of
+  `fixedLengths` and `typeAlign` — against the graphs obtained by executing the code (Generated/Arrays.lean), and against
+  the Spec's pg_type table.  If the code's tables drift from the model, this module stops building.
 -/
 import PgVerif.Model.Arrays
 import PgVerif.Spec.Arrays
